@@ -7,6 +7,20 @@ BASE_NOTE = ("Trusted: Coq 8.16.1 kernel (no native_compute; vm_compute only in 
              "(Print Assumptions parsed every run; theorems at R would add the 3 stdlib real axioms); ExtrOcamlBasic extraction with Z/Q/Qc kept as datatypes + a Zarith I/O driver; "
              "the Python correspondence harness and its tolerances; JAX/NumPy primitives are modelled by contracts (rfftn/irfftn = DFT half-spectrum, scan = fold, exp). ")
 CLAIMED = {
+ "C05": dict(text="Theorems (any field of characteristic 0 with i^2=-1; every order n, every wavenumber list): the derivative multiplier and gradient-axis placement, Laplace operator of order 2n = "
+                  "(-1)^n sum kappa^(2n), gradient inner product of order 2n+1 = i (-1)^n sum v kappa^(2n+1), order 0 = 1, parity guards (translated from the source); the Poisson solver returns "
+                  "lam*u = -f where the symbol lam is non-zero and 0 where it vanishes; over a formally real field the order-2 symbol vanishes exactly at the mean mode. Operator arrays, "
+                  "Poisson._inv_operator/step_fourier compared with the extracted model at every stored mode in exact rationals (incl. L = 1e5 and 1e-3).",
+             note="Symbol calculus for exponentials and the rfftn/irfftn contract (C04) are used; ex.derivative and Poisson are additionally checked against analytic derivatives/solutions of random "
+                  "Nyquist-free trigonometric polynomials on the real code.",
+             technique="Rocq proof (ring/field identities, formal reality) + exact-rational operator correspondence", design="§4 C05"),
+ "C10": dict(text="Theorems (any field of characteristic 0, D = 2, 3, every mode, every input): the Leray projection has zero divergence wherever the Laplace symbol is non-zero, is idempotent, fixes "
+                  "divergence-free fields and is the identity at the mean mode; make_incompressible equals it at every mode (premise: Laplace symbol vanishes only where d = 0, proved for real "
+                  "wavenumbers over a formally real field, hence independent of L); every ETDRK order 0-4 (stage programs translated from the source) maps divergence-free states to divergence-free "
+                  "states when the nonlinear term is divergence free and the coefficient arrays are channel-independent. Leray / make_incompressible compared with the extracted model at every stored mode.",
+             note="That ProjectedConvection3d(Kolmogorov) is divergence free for every input follows from its last operation being the Leray projection (model Nonlin/Terms.v, tied by the C03 correspondence) "
+                  "and is checked on the real code with white noise, as is preservation over rollouts for several L (incl. L = 20).",
+             technique="Rocq proof (field identities per mode, linearity of the stage programs) + exact-rational correspondence", design="§4 C10"),
  "C03": dict(text="Theorems for every D, N, state and field of characteristic 0: the dealiasing cutoffs satisfy 3K<N (2/3 rule) and 4K<N (1/2 rule) for all N; with (q+2)K<N the pseudo-spectral "
                   "product (circular convolution on the N-grid) equals the alias-free product on the retained band and vanishes outside it (index argument, any dimension); hence each built-in "
                   "term (4 convection forms, gradient norm, polynomial<=3, general nonlinear, 2D vorticity, 3D projected + Leray, Cahn-Hilliard, Gray-Scott) equals the documented operator applied to "
